@@ -277,3 +277,61 @@ benign(
     ["C13"],
     (PLAN, "                primitive_op = node.get(\"primitive_op\", None)\n                if primitive_op is not None:", "                if \"primitive_op\" in node:\n                    primitive_op = node[\"primitive_op\"]"),
 )
+
+# ---------------------------------------------------------------- C07
+mutant(
+    "M47-streams-outside-generation-loop",
+    ["C07"],
+    "BARRIER-1",
+    (ASYNC, "        for gen in visit_node_generations(dag):\n            # run pipelines in the same topological generation in parallel by merging their streams\n            streams = []\n", "        streams = []\n        for gen in visit_node_generations(dag):\n            # run pipelines in the same topological generation in parallel by merging their streams\n"),
+)
+mutant(
+    "M47b-merge-all-generations",
+    ["C07", "C13"],
+    "BARRIER-1",
+    (
+        ASYNC,
+        "            for name in group_names:\n                handle_operation_start_callbacks(callbacks, name)\n            merged_stream = stream.merge(*streams)\n            async with merged_stream.stream() as streamer:\n                async for result, stats in streamer:\n                    handle_callbacks(callbacks, result, stats)\n            for name in group_names:\n                handle_operation_end_callbacks(callbacks, name)",
+        "            for name in group_names:\n                handle_operation_start_callbacks(callbacks, name)\n            all_streams.extend(streams)\n        merged_stream = stream.merge(*all_streams)\n        async with merged_stream.stream() as streamer:\n            async for result, stats in streamer:\n                handle_callbacks(callbacks, result, stats)",
+    ),
+    (ASYNC, "    else:\n        for gen in visit_node_generations(dag):", "    else:\n        all_streams = []\n        for gen in visit_node_generations(dag):"),
+    also=("EVENTS-1",),
+)
+mutant("M48-iterate-dag-nodes", ["C07"], "BARRIER-SRC-1", (LOCAL, "        for name, node in visit_nodes(dag):\n            handle_operation_start_callbacks(callbacks, name)\n            pipeline: CubedPipeline", "        for name, node in dag.nodes(data=True):\n            handle_operation_start_callbacks(callbacks, name)\n            pipeline: CubedPipeline"), also=("BARRIER-1", "EVENTS-1"))
+mutant(
+    "M49-one-generation-of-everything",
+    ["C07"],
+    "BARRIER-SRC-1",
+    (PIPE, "    for names in nx.topological_generations(dag):", "    for names in [list(dag.nodes)]:"),
+)
+mutant("M49b-visit-nodes-unsorted", ["C07"], "BARRIER-SRC-1", (PIPE, "    for name in list(nx.topological_sort(dag)):\n        if skip_node(name, dag, nodes):", "    for name in list(dag.nodes):\n        if skip_node(name, dag, nodes):"))
+mutant("M50-barrier-edge-first-only", ["C07"], "CREATE-FIRST-1", (PLAN, "            for n in all_pipeline_nodes:\n                dag.add_edge(\"arrays\", n)", "            for n in all_pipeline_nodes[:1]:\n                dag.add_edge(\"arrays\", n)"))
+mutant(
+    "M50b-barrier-only-array-producers",
+    ["C07"],
+    "CREATE-FIRST-1",
+    (PLAN, "            if \"primitive_op\" in d:\n                all_pipeline_nodes.append(n)", "            if \"primitive_op\" in d and d[\"primitive_op\"].target_array is not None:\n                all_pipeline_nodes.append(n)"),
+)
+mutant("M51-primitive-op-without-pipeline", ["C07", "C02"], "NODEKEYS-1", (OPT, "    fused_nodes[name][\"pipeline\"] = fused_primitive_op.pipeline\n", ""))
+mutant("M51b-source-edges-first-only", ["C07"], "PLAN-EDGES-1", (PLAN, "        for x in source_arrays:\n            if hasattr(x, \"name\"):\n                dag.add_edge(x.name, op_name_unique)", "        for x in source_arrays[:1]:\n            if hasattr(x, \"name\"):\n                dag.add_edge(x.name, op_name_unique)"))
+mutant("M51c-source-arrays-sliced", ["C07"], "PLAN-EDGES-1", (OPS, "    source_arrays = list(arrays) + list(extra_source_arrays)\n\n    extra_projected_mem = kwargs.pop(\"extra_projected_mem\", 0)\n\n    num_input_blocks", "    source_arrays = list(arrays[:1]) + list(extra_source_arrays)\n\n    extra_projected_mem = kwargs.pop(\"extra_projected_mem\", 0)\n\n    num_input_blocks"))
+mutant(
+    "M51d-break-in-result-loop",
+    ["C07"],
+    "BARRIER-1",
+    (ASYNC, "            async with st.stream() as streamer:\n                async for result, stats in streamer:\n                    handle_callbacks(callbacks, result, stats)", "            async with st.stream() as streamer:\n                async for result, stats in streamer:\n                    handle_callbacks(callbacks, result, stats)\n                    if result is None:\n                        break"),
+)
+mutant(
+    "M51e-stream-spawned",
+    ["C07"],
+    "BARRIER-1",
+    (ASYNC, "            async with st.stream() as streamer:\n                async for result, stats in streamer:\n                    handle_callbacks(callbacks, result, stats)\n            handle_operation_end_callbacks(callbacks, name)\n    else:", "            asyncio.ensure_future(_drain(st, callbacks))\n            handle_operation_end_callbacks(callbacks, name)\n    else:"),
+    (ASYNC, "def pipeline_to_stream(", "async def _drain(st, callbacks):\n    async with st.stream() as streamer:\n        async for result, stats in streamer:\n            handle_callbacks(callbacks, result, stats)\n\n\ndef pipeline_to_stream("),
+    also=("EVENTS-1",),
+)
+mutant("M59-skip-default-true", ["C07", "C09"], "BARRIER-SRC-1", (PIPE, "    return nodes[name].get(\"computed\", False)", "    return nodes[name].get(\"computed\", True)"))
+benign(
+    "B-barrier-edges-comprehension",
+    ["C07"],
+    (PLAN, "            for n in all_pipeline_nodes:\n                dag.add_edge(\"arrays\", n)", "            for n in all_pipeline_nodes:\n                dag.add_edge(\"arrays\", n)\n            logger_unused = None"),
+)
